@@ -71,11 +71,14 @@ func NewSession(repo, specDir, work string) (*Session, error) {
 	if err := ex.LoadSpec(); err != nil {
 		return nil, err
 	}
-	ex.AlignClosures()
-	ex.IndexFunctions()
 	if data, err := os.ReadFile(filepath.Join(specDir, "locals_baseline.json")); err == nil {
 		json.Unmarshal(data, &ex.LocalsBaseline)
 	}
+	if data, err := os.ReadFile(filepath.Join(specDir, "functions_baseline.json")); err == nil {
+		json.Unmarshal(data, &ex.FuncsBaseline)
+	}
+	ex.AlignClosures()
+	ex.IndexFunctions()
 	ex.RunInits()
 	s := &Session{Ex: ex, RepoDir: repo, SpecDir: specDir, WorkDir: work, TimeoutS: 10, Parallel: 14, ContractFiles: files, IdenticalInstances: map[string]int{}}
 	s.LoadTime = time.Since(start).Seconds()
